@@ -8,7 +8,7 @@ From SebufProofs Require Import EmitFacts.
    expression the emitters print meets the requirement it puts on the Go type of the field it
    touches, no method / package-level declaration / literal key is declared twice, every referenced
    identifier exists, every import is used, every printf call has as many verbs as arguments; and
-   no TypeScript block declares a const twice. *)
+   no TypeScript block declares a const twice (that part now holds for EVERY schema: C13_ts_loads_always). *)
 Theorem C13_builds : forall sc, accepted sc = true -> defects_C13 sc = [] ->
   (forall ps, go_builds sc ps = true /\ go_vets sc ps = true) /\ ts_loads sc = true.
 Proof. exact C13_builds_lemma. Qed.
@@ -38,12 +38,33 @@ Theorem C13_snake_ne_go_camel_refuted :
   snake_to_upper_camel (s "tail_") <> go_camel (s "tail_").
 Proof. repeat split; vm_compute; discriminate. Qed.
 
-(* the TS server redeclares `url` exactly for body-less verbs with path variables and query parameters *)
-Theorem C13_ts_route_redeclares_iff : forall sc sv md,
-  nodup_strb (ts_route_consts sc sv md) = false <->
-  (path_params md <> [] /\ has_body md = false /\ exists m, input_msg sc md = Some m /\ query_fields_of m <> []).
-Proof. exact ts_route_redeclares_iff. Qed.
-Print Assumptions C13_ts_route_redeclares_iff.
+(* After cbe68e9 no route handler of the TS server declares a const twice, for any verb, path
+   variables, query parameters and headers; the query parser (which reads url.searchParams) always
+   has `url` in scope; hence every emitted TS module of every schema is duplicate-free. *)
+Theorem C13_ts_route_never_redeclares : forall sc sv md, nodup_strb (ts_route_consts sc sv md) = true.
+Proof. exact ts_route_never_redeclares. Qed.
+Print Assumptions C13_ts_route_never_redeclares.
+Theorem C13_ts_query_parser_has_url : forall sc sv md,
+  mem_str (s "params") (ts_route_consts sc sv md) = true -> mem_str (s "url") (ts_route_consts sc sv md) = true.
+Proof. exact ts_query_parser_has_url. Qed.
+Print Assumptions C13_ts_query_parser_has_url.
+Theorem C13_ts_loads_always : forall sc, ts_loads sc = true.
+Proof. exact ts_loads_always. Qed.
+Print Assumptions C13_ts_loads_always.
+
+(* positive examples for the three repaired classes (ffb4b75, e425100, cbe68e9) *)
+Example C13_discriminated_oneof_vets :
+  accepted disc_schema = true /\ defects_C13 disc_schema = [] /\
+  go_vets disc_schema OnlyHttp = true /\ go_vets disc_schema OnlyClient = true /\ go_vets disc_schema Both = true.
+Proof. exact discriminated_oneof_vets. Qed.
+Example C13_header_declared_twice_builds :
+  let sc := hdr_schema ["X-Trace"; "X-Tenant"]%string ["X-Tenant"; "Trace"]%string ["X-Tenant"; "X-Req"]%string in
+  accepted sc = true /\ defects_C13 sc = [] /\ go_vets sc OnlyClient = true /\ go_vets sc Both = true.
+Proof. pose proof header_declared_twice_builds as H. cbv zeta in *. tauto. Qed.
+Example C13_ts_get_with_path_and_query_loads :
+  let sc := get_schema (msg "Q" [fld "id" KString Singular None []; fld "v" KString Singular None [AQuery]] []) "/x/{id}" in
+  accepted sc = true /\ defects_C13 sc = [] /\ ts_loads sc = true /\ go_vets sc Both = true.
+Proof. pose proof ts_get_with_path_and_query_loads as H. cbv zeta in *. tauto. Qed.
 
 Example C13_nonvacuous :
   accepted good_schema = true /\ defects_C13 good_schema = [] /\
@@ -63,10 +84,8 @@ Theorem C13_refuted_two_marshaljson_features : exists sc, refuted sc ["two-marsh
 Proof. eexists. exact w_two_features. Qed.
 Theorem C13_refuted_flatten_field_with_empty_behavior : exists sc, refuted sc ["two-marshaljson-features"%string] OnlyClient ["redeclared"%string].
 Proof. eexists. exact w_flatten_plus_empty. Qed.
-Theorem C13_refuted_oneof_errorf_escaped_verb : exists sc, refuted sc ["oneof-errorf-escaped-verb"%string] OnlyHttp ["vet-printf"%string].
-Proof. eexists. exact w_errorf. Qed.
 Theorem C13_refuted_oneof_duplicate_discriminator_value :
-  exists sc, refuted sc ["oneof-errorf-escaped-verb"%string; "oneof-duplicate-discriminator-value"%string] OnlyHttp ["duplicate"%string].
+  exists sc, refuted sc ["oneof-duplicate-discriminator-value"%string] OnlyHttp ["duplicate"%string].
 Proof. eexists. exact w_dup_discriminator. Qed.
 Theorem C13_refuted_unqualified_foreign_type : exists sc, refuted sc ["unqualified-foreign-type"%string] OnlyHttp ["undefined"%string].
 Proof. eexists. exact w_foreign_flatten. Qed.
@@ -92,8 +111,8 @@ Theorem C13_refuted_client_query_on_non_singular : exists sc, refuted sc ["clien
 Proof. eexists. exact w_query_optional. Qed.
 Theorem C13_refuted_client_query_on_enum_bytes_message : exists sc, refuted sc ["client-query-on-enum-bytes-message"%string] Both ["type"%string].
 Proof. eexists. exact w_query_bytes. Qed.
-Theorem C13_refuted_client_duplicate_header_option : exists sc, refuted sc ["client-duplicate-header-option"%string] OnlyClient ["redeclared"%string].
-Proof. eexists. exact w_header_twice. Qed.
+Theorem C13_refuted_package_declaration_clash_call_prefix : exists sc, refuted sc ["package-declaration-clash"%string] OnlyClient ["redeclared"%string].
+Proof. eexists. exact w_header_call_prefix. Qed.
 Theorem C13_refuted_package_declaration_clash : exists sc, refuted sc ["package-declaration-clash"%string] OnlyClient ["redeclared"%string].
 Proof. eexists. exact w_header_builtin. Qed.
 Theorem C13_refuted_same_method_name_two_services : exists sc, refuted sc ["same-method-name-two-services"%string] OnlyHttp ["redeclared"%string].
@@ -104,6 +123,3 @@ Theorem C13_refuted_two_service_files_one_package : exists sc, refuted sc ["two-
 Proof. eexists. exact w_two_files. Qed.
 Theorem C13_refuted_service_without_methods : exists sc, refuted sc ["service-without-methods"%string] OnlyHttp ["unused"%string].
 Proof. eexists. exact w_no_methods. Qed.
-Theorem C13_refuted_ts_server_url_redeclared : exists sc,
-  accepted sc = true /\ defects_C13 sc = [s "ts-server-url-redeclared"] /\ ts_loads sc = false /\ go_vets sc Both = true.
-Proof. eexists. exact w_ts_url. Qed.
